@@ -274,7 +274,10 @@ def check(prop, tier, seed, cfg, work, t0):
                 problems.append("%s/%s: %s (x%d)" % (tname, r["harness"], m, n))
             if not r["exhausted"]:
                 problems.append("%s/%s: exploration not exhausted" % (tname, r["harness"]))
-            need = cfg.get("covers", ["end"])
+            need = list(cfg.get("covers", ["end"]))
+            for rx, cs in cfg.get("covers_by_harness", {}).items():
+                if re.fullmatch(rx, r["harness"]):
+                    need += cs
             for c in need:
                 if r["covers"].get(c, 0) == 0 and not r["violations"]:
                     problems.append("%s/%s: vacuity witness %r never reached" % (tname, r["harness"], c))
